@@ -408,6 +408,8 @@ func TestVerifC01(t *testing.T) {
 		var trig *c01Trigger
 		insideAbandon := false
 		var pendingObs []int
+		var preListing [][]string
+		preExtra := 0
 		scribbleN := 256
 		if overlap {
 			// in 2 of 3 overlap cases 1-2 more buffers are out for the whole case (other clients' requests
@@ -525,6 +527,9 @@ func TestVerifC01(t *testing.T) {
 					}
 					body, c = bytes.NewReader(d), tab.bytes(d)
 					cn = &c01CN{ResponseRecorder: httptest.NewRecorder(), ch: make(chan bool)}
+					if kind != "PUTHANGUP" {
+						preListing, preExtra = listing()
+					}
 					switch kind {
 					case "PUTABANDON":
 						trig = &c01Trigger{labels: map[string]bool{"WriteBlock:write:tmpfile": true, "WriteBlock:tmpfile.Close": true}, fn: func() {
@@ -684,6 +689,11 @@ func TestVerifC01(t *testing.T) {
 			if slot < 0 {
 				after, extra = listing()
 			}
+			if kind == "PUTHANGUP" && preListing != nil {
+				// it ran while the request holding the lock had its temp file in the directory, and it changes
+				// nothing itself: what the directory held before that request started
+				after, extra = preListing, preExtra
+			}
 			rows = make([]string, len(after))
 			for k, row := range after {
 				rows[k] = gList(row)
@@ -769,7 +779,15 @@ func TestVerifC01(t *testing.T) {
 				}
 			}
 			var code int
-			if overlap && len(queue) == 0 && rv.Chance(1, 4) {
+			nwr := 0
+			for _, x := range ro {
+				if !x {
+					nwr++
+				}
+			}
+			// (PUTABANDON: two writes of one block at the same time are a request sequence for the model only
+			// when both go to the same volume)
+			if overlap && len(queue) == 0 && (serialize || nwr == 1) && rv.Chance(1, 3) {
 				kind = "PUTABANDON"
 				if serialize {
 					kind = "PUTLOCKED"
